@@ -1,4 +1,4 @@
-import StepModel.P21.Reader
+import StepModel.P21.ReaderLemmas2
 import StepModel.Generated.P21RWGen
 /-! # C03 — the reader never reports a violating file as clean: property theorems
 
@@ -15,7 +15,7 @@ literal/aggregate/select reader report a severity worse than USERMSG (per-litera
 and the confinement clause (resynchronisation at the next `#`).
 -/
 namespace StepModel.P21.C03
-open StepModel StepModel.P21
+open StepModel StepModel.P21 StepModel.P21.RLemmas StepModel.P21.Lemmas
 
 /-- p21read exits non-zero exactly when the severity is worse than a user message -/
 theorem C03_exit_iff_worse_than_usermsg (e : Sev) : exitStatus e = 1 ↔ e.toInt < Sev.usermsg.toInt := by
@@ -382,6 +382,116 @@ theorem C03_count_mismatch_fails_file {F} (ops : FloatOps F) (lex : LexCfg) (cfg
   obtain ⟨p2, _, _, _, _, hm⟩ := section_spec ops lex cfg d strict skipws bytes r h
   have := le_warning_lt _ (hm hn)
   exact ⟨this, lt_usermsg_exit _ this⟩
+
+/-! ### confinement: resynchronisation -/
+
+/-- the recovery scan of `SDAI_Application_instance::STEPread`: whatever garbage stands before the closing `)` (anything
+    without a `)`), the scan ends right after the `;` that follows it -/
+theorem recoverScan_spec (body : List Byte) (hb : ∀ x ∈ body, x ≠ 41) (sp : List Byte) (hsp : sp.all isSpace = true) :
+    ∀ (fuel : Nat) (c : Byte) (l rest : List Byte) (sk : Bool), body.length + 2 ≤ fuel → c ≠ 41 →
+      recoverScan fuel c (G l (body ++ 41 :: (sp ++ 59 :: rest)) sk) =
+        .ok (G (59 :: (sp.reverse ++ 41 :: (body.reverse ++ l))) rest sk) := by
+  induction body with
+  | nil =>
+    intro fuel c l rest sk hf hc
+    match fuel, hf with
+    | n + 2, _ =>
+      have hc' : (c != 41) = true := by simpa using hc
+      unfold recoverScan
+      simp only [G_good, Bool.not_true, Bool.false_eq_true, if_false, hc', if_true, List.nil_append]
+      rw [show getInto c (G l (41 :: (sp ++ 59 :: rest)) sk) = (41, G (41 :: l) (sp ++ 59 :: rest) sk) from getInto_good c l 41 _ sk]
+      simp only
+      unfold recoverScan
+      simp only [G_good, Bool.not_true, Bool.false_eq_true, if_false, bne_self_eq_false]
+      rw [show (G (41 :: l) (sp ++ 59 :: rest) sk).ws = G (sp.reverse ++ 41 :: l) (59 :: rest) sk from ws_good _ sp 59 rest sk hsp (by decide)]
+      rw [show getInto 41 (G (sp.reverse ++ 41 :: l) (59 :: rest) sk) = (59, G (59 :: (sp.reverse ++ 41 :: l)) rest sk)
+        from getInto_good 41 _ 59 rest sk]
+      simp [pure, Except.pure]
+  | cons b t ih =>
+    intro fuel c l rest sk hf hc
+    match fuel, hf with
+    | n + 1, hf =>
+      have hc' : (c != 41) = true := by simpa using hc
+      have hb41 : b ≠ 41 := hb b (by simp)
+      unfold recoverScan
+      simp only [G_good, Bool.not_true, Bool.false_eq_true, if_false, hc', if_true, List.cons_append]
+      rw [show getInto c (G l (b :: (t ++ 41 :: (sp ++ 59 :: rest))) sk) = (b, G (b :: l) (t ++ 41 :: (sp ++ 59 :: rest)) sk)
+        from getInto_good c l b _ sk]
+      simp only
+      rw [ih (fun x hx => hb x (by simp [hx])) n b (b :: l) rest sk (by simp only [List.length_cons] at hf; omega) hb41]
+      simp
+
+theorem shiftInto_noskip (c : Byte) (l : List Byte) (x : Byte) (t : List Byte) :
+    shiftInto c (G l (x :: t) false) = (x, G (x :: l) t false) := by
+  simp [shiftInto, IStream.getChar, IStream.sentry, IStream.good]
+
+/-- `SkipInstance` (pass 1, and every "data lost" path of pass 2) with `skipws` off, as it is in a data section: over any
+    text without `;`, apostrophe, NUL and `/` it ends right after the first `;` -/
+theorem scanTo_semicolon (skipCmt : Bool) (body : List Byte)
+    (hb : ∀ x ∈ body, x ≠ 59 ∧ x ≠ 39 ∧ x ≠ 0 ∧ x ≠ 47) :
+    ∀ (fuel : Nat) (c : Byte) (l rest : List Byte), body.length + 1 ≤ fuel →
+      scanTo 59 false skipCmt fuel c (G l (body ++ 59 :: rest) false) = .ok (G (59 :: (body.reverse ++ l)) rest false) := by
+  induction body with
+  | nil =>
+    intro fuel c l rest hf
+    match fuel, hf with
+    | n + 1, _ =>
+      unfold scanTo
+      simp only [G_good, Bool.not_true, Bool.false_eq_true, if_false, List.nil_append]
+      rw [shiftInto_noskip]
+      simp [pure, Except.pure]
+  | cons b t ih =>
+    intro fuel c l rest hf
+    match fuel, hf with
+    | n + 1, hf =>
+      obtain ⟨h59, h39, h0, h47⟩ := hb b (by simp)
+      unfold scanTo
+      simp only [G_good, Bool.not_true, Bool.false_eq_true, if_false, List.cons_append]
+      rw [shiftInto_noskip]
+      have e1 : (b == 59) = false := by simpa using h59
+      have e2 : (b == 39) = false := by simpa using h39
+      have e3 : (b == 0) = false := by simpa using h0
+      have e4 : (b == 47) = false := by simpa using h47
+      simp only [e1, e2, e3, e4, Bool.false_eq_true, if_false, Bool.false_and]
+      rw [ih (fun x hx => hb x (by simp [hx])) n b (b :: l) rest (by simp only [List.length_cons] at hf; omega)]
+      simp
+
+/-- **resynchronisation, recovery scan**: see `recoverScan_spec` -/
+theorem C03_recovery_scan_resynchronises (body : List Byte) (hb : ∀ x ∈ body, x ≠ 41) (sp : List Byte) (hsp : sp.all isSpace = true)
+    (fuel : Nat) (c : Byte) (l rest : List Byte) (sk : Bool) (hf : body.length + 2 ≤ fuel) (hc : c ≠ 41) :
+    recoverScan fuel c (G l (body ++ 41 :: (sp ++ 59 :: rest)) sk) =
+      .ok (G (59 :: (sp.reverse ++ 41 :: (body.reverse ++ l))) rest sk) :=
+  recoverScan_spec body hb sp hsp fuel c l rest sk hf hc
+
+/-- the source as it is now: the recovery scan leaves the `;` (regenerated on every run) -/
+theorem C03_source_recovery_keeps_semicolon : Generated.rwCfg.recoveryKeepsSemicolon = true := by decide
+
+/-- **confinement of too many parameters**: when the parameter list has more parameters than attributes, whatever the
+    extra parameters are (any bytes without `)`), `SDAI_Application_instance::STEPread` returns INPUT_ERROR or worse and —
+    in the repaired source — leaves the stream exactly at the instance's terminating `;`: `ReadInstance` then reads
+    that `;` and the instance that follows is untouched. -/
+theorem C03_too_many_parameters_confined {F} (env : Env F) (strict : Bool) (hcfg : env.cfg.recoveryKeepsSemicolon = true)
+    (body : List Byte) (hb : ∀ x ∈ body, x ≠ 41) (sp : List Byte) (hsp : sp.all isSpace = true)
+    (err : Sev) (c : Byte) (hc : c ≠ 41) (l rest : List Byte) (sk : Bool) :
+    readAttrs env strict [] err c (G l (body ++ 41 :: (sp ++ 59 :: rest)) sk) =
+      .ok ⟨err.greater .inputError, [], G (sp.reverse ++ 41 :: (body.reverse ++ l)) (59 :: rest) sk⟩ := by
+  unfold readAttrs
+  have hclear : (G l (body ++ 41 :: (sp ++ 59 :: rest)) sk).clear = G l (body ++ 41 :: (sp ++ 59 :: rest)) sk := rfl
+  simp only [bind, Except.bind, pure, Except.pure, hclear]
+  rw [recoverScan_spec body hb sp hsp _ c l rest sk
+    (by simp only [List.length_append, List.length_cons]; omega) hc]
+  simp only [hcfg, G_good, Bool.and_self, if_true]
+  rw [show IStream.putback 59 (G (59 :: (sp.reverse ++ 41 :: (body.reverse ++ l))) rest sk) =
+    G (sp.reverse ++ 41 :: (body.reverse ++ l)) (59 :: rest) sk from putback_good 59 _ rest sk]
+
+/-- **resynchronisation, `SkipInstance`** (`skipws` off, as in a data section): an instance that is skipped — duplicate id,
+    unknown or abstract keyword, missing `=`, not found in pass 2 — is skipped up to and including its `;`, for any text
+    without `;`, apostrophe, NUL and `/`; the next instance starts where the scan ends. -/
+theorem C03_skip_instance_resynchronises (cfg : RWCfg) (body : List Byte)
+    (hb : ∀ x ∈ body, x ≠ 59 ∧ x ≠ 39 ∧ x ≠ 0 ∧ x ≠ 47) (l rest : List Byte) :
+    skipInstance cfg (G l (body ++ 59 :: rest) false) = .ok (G (59 :: (body.reverse ++ l)) rest false) := by
+  unfold skipInstance
+  exact scanTo_semicolon _ body hb _ 0 l rest (by simp only [List.length_append, List.length_cons]; omega)
 
 /-! ### the hypotheses are satisfiable: a string where an INTEGER is required -/
 def exDict : Dict :=
